@@ -85,7 +85,13 @@ def gen_case(rng, tier):
 
 def generate(rng, tier):
     n = 130 if tier == "quick" else 1200
-    return [gen_case(rng, tier) for _ in range(n)]
+    cases = [gen_case(rng, tier) for _ in range(n)]
+    for c in cases:
+        # re-use: a quarter of the cases change baseline_value through the public attribute and explain again (same
+        # object, same shapes): the result must be the one of the new baseline
+        if not c["record"] and rng.random() < 0.25:
+            c["bv2"] = rng.choice([b for b in (0.0, -0.5, 1.25, 0.5) if b != c["bv"]])
+    return cases
 
 
 def eff(case):
@@ -179,6 +185,10 @@ def run_impl(case):
     if out.shape[0] != n:
         raise AssertionError(f"explain returned {out.shape[0]} explanations for {n} inputs")
     res = dict(shape=list(out.shape), maps=[[float(v) for v in m.reshape(-1)] for m in out])
+    if case.get("bv2") is not None:
+        expl.baseline_value = case["bv2"]
+        out2 = np.asarray(expl.explain(xs, ts))
+        res["maps2"] = [[float(v) for v in m.reshape(-1)] for m in out2]
     if record:
         res["queries"] = [[[float(v) for v in p], [float(v) for v in t]] for qx, qt in queries for p, t in zip(qx, qt)]
     return res
@@ -274,6 +284,12 @@ def queries_check(case, res):
 
 def coq_term(case, res):
     parts = [main_check(case, res), completeness_check(case, res), queries_check(case, res)]
+    if case.get("bv2") is not None:
+        if "maps2" not in res:
+            return "false"
+        c2 = dict(case, bv=case["bv2"], bv2=None)
+        r2 = dict(res, maps=res["maps2"])
+        parts += [main_check(c2, r2), completeness_check(c2, r2)]
     return "(" + " && ".join(f"({p})" for p in parts if p is not None) + ")"
 
 
